@@ -75,7 +75,11 @@ pub fn check_case(rep: &Report, case: &Case, local: &mut Local, worker_counts: &
                 si.total_samples() as u64,
                 *si.md5_digest(),
             );
-            // byte view (first 42 bytes of the emitted stream)
+            // byte view (first 42 bytes of the emitted stream); a write of another stream that the sink
+            // refuses at its k-th operation (k cycles through the positions inside and after STREAMINFO)
+            // comes first on this thread
+            subject::refused_stream_write((local.evals % 14) as usize, local.evals % 28 >= 14);
+            local.count("refused_stream_writes_before_the_judged_serialisation", 1);
             let bytes = match subject::stream_bytes(&stream) {
                 Ok(b) => b,
                 Err(EncFail::TooBig(_)) => {
@@ -94,6 +98,26 @@ pub fn check_case(rep: &Report, case: &Case, local: &mut Local, worker_counts: &
                     continue;
                 }
             };
+            // the same STREAMINFO whichever sink receives the stream
+            if bytes.len() <= 1 << 16 {
+                match subject::stream_bytes_other_sinks(&stream) {
+                    Ok((wb, mb)) => {
+                        for (name, b) in [("MemSink<u64>", &wb), ("a user sink with the required operations only", &mb)] {
+                            if b[..] != bytes[..] {
+                                let at = b.iter().zip(bytes.iter()).position(|(x, y)| x != y).unwrap_or(b.len().min(bytes.len()));
+                                rep.violation(
+                                    if at < 42 { "sink_dependence|streaminfo" } else { "sink_dependence|frames" },
+                                    &format!("{label}: the stream written into {name} differs from the one written into ByteSink at byte {at} (lengths {} / {})", b.len(), bytes.len()),
+                                    c.json(),
+                                    c.weight(),
+                                );
+                            }
+                        }
+                        local.count("streams_compared_across_three_sinks", 1);
+                    }
+                    Err(e) => rep.violation(&format!("encode_fail|other_sinks|{}", e.class()), &format!("{label}: {}", e.describe()), c.json(), c.weight()),
+                }
+            }
             if acc != got {
                 rep.violation("accessor_vs_bytes", &format!("{label}: StreamInfo accessors {acc:?} differ from the serialised STREAMINFO {got:?}"), c.json(), c.weight());
             }
@@ -260,7 +284,7 @@ pub fn run(args: &Args, rep: &Arc<Report>) {
     );
     rep.extra("cases", json!(n));
     rep.set_rule(&format!(
-        "dense product: bps{{8,12,16,20,24}} x channels 1..=8 x sign-heavy atoms({}) x block sizes({}) x full blocks 0..=2 x tail{{0,1,15,17,bs-1}} (incl. the empty input), plus block size 4096 shapes and every sample-rate class; each case x 3 deliveries (MemSource with hint, integer source, LE-byte source) x {{ST, frame-level, MT workers 1..3}}; oracle: STREAMINFO (accessors and serialised bytes) == source format, delivered sample count, MD5 of the harness's own LE serialisation, and identical across deliveries and modes; non-trivial = non-empty input with negative samples",
+        "dense product: bps{{8,12,16,20,24}} x channels 1..=8 x sign-heavy atoms({}) x block sizes({}) x full blocks 0..=2 x tail{{0,1,15,17,bs-1}} (incl. the empty input), plus block size 4096 shapes and every sample-rate class; each case x 3 deliveries (MemSource with hint, integer source, LE-byte source) x {{ST, frame-level, MT workers 1..3}}; oracle: STREAMINFO (accessors and serialised bytes; the bytes identical through ByteSink, MemSink<u64> and a user sink with the required operations only; each serialisation preceded on its thread by a write of another stream refused at operation 0..13) == source format, delivered sample count, MD5 of the harness's own LE serialisation, and identical across deliveries and modes; non-trivial = non-empty input with negative samples",
         if thorough { 8 } else { 4 },
         if thorough { 5 } else { 3 }
     ));
